@@ -7,6 +7,7 @@ case kinds (field 'kind'):
   tf         DLTIFilter(b,a).transfer_function() at z        -> val
   de         DLTIFilter(b,a).difference_equation()           -> lhs_y, rhs_y, rhs_x coefficient maps
   impulse    DLTIFilter(b,a).impulse_response() at n<N       -> vals
+  step       DLTIFilter(b,a).step_response() at n<N          -> vals
   zic        DLTIFilter(b,a).zdomain_initial_response(..)    -> val at z
   fromtf     DLTIFilter.from_transfer_function(H)            -> nn, dn (observed), b, a
   lfilter    Sequence.lfilter(b, a)                          -> vals, n
@@ -265,7 +266,7 @@ def run(case):
     from lcapy.discretetime import seq, nexpr, zexpr, kexpr
     from lcapy.sym import nsym, zsym, ksym
     kind = case['kind']
-    if kind in ('response', 'tf', 'de', 'impulse', 'zic'):
+    if kind in ('response', 'tf', 'de', 'impulse', 'zic', 'step'):
         b = [R(v) for v in case['b']]
         a = [R(v) for v in case['a']]
         fil = DLTIFilter(b, a)
@@ -306,6 +307,13 @@ def run(case):
             v = expr_at_n(h, nsym, m)
             vals.append(None if v is None else rstr(v))
         return {'vals': vals, 'expr': str(h)[:300]}
+    if kind == 'step':
+        g = fil.step_response().sympy
+        vals = []
+        for m in range(case['N']):
+            v = expr_at_n(g, nsym, m)
+            vals.append(None if v is None else rstr(v))
+        return {'vals': vals, 'expr': str(g)[:300]}
     if kind == 'zic':
         ic = [R(v) for v in case['ic']]
         xic = [R(v) for v in case['xic']]
